@@ -157,6 +157,17 @@ def sany(module):
         shutil.rmtree(d, ignore_errors=True)
 
 
+def _np_default(o):
+    import numpy as np
+    if isinstance(o, np.bool_):
+        return bool(o)
+    if isinstance(o, np.integer):
+        return int(o)
+    if isinstance(o, np.floating):
+        return float(o)
+    raise TypeError("not JSON serialisable: %r" % type(o))
+
+
 def write_json(path, obj):
     with open(path, "w") as f:
-        json.dump(obj, f, separators=(",", ":"))
+        json.dump(obj, f, separators=(",", ":"), default=_np_default)
